@@ -190,3 +190,35 @@ def gen_negate(g: Gen):
         raise NotGenerated("no default path")
     g.assumptions.add("induction schema over the height of the AST (recursive calls satisfy the contract)")
     g.assumptions.add("and/or are modelled on truth values (conditions are used in boolean context by swap_if_else/early_continue)")
+
+
+# ----------------------------------------------------------------------------- comparison folding in simplify_boolean_expressions (C15 consumer)
+PY_CMP = {"Eq": ast.Eq, "NotEq": ast.NotEq, "Gt": ast.Gt, "Lt": ast.Lt, "GtE": ast.GtE, "LtE": ast.LtE}
+
+
+def gen_compare_folding(g: Gen):
+    """`if isinstance(operator, ast.X): yield node, ast.Constant(value=left <op> right)`: <op> is the operator X denotes, and the
+    operands are in source order"""
+    fn, text = find_def("symbolic_math", "simplify_boolean_expressions")
+    g.sha = segment_sha(text, fn)
+    g.lines = [fn.lineno, fn.end_lineno]
+    found = {}
+    for n in ast.walk(fn):
+        if isinstance(n, ast.If) and isinstance(n.test, ast.Call) and ast.unparse(n.test.func) == "isinstance" and len(n.test.args) == 2 \
+                and ast.unparse(n.test.args[0]) == "operator" and isinstance(n.test.args[1], ast.Attribute) and n.test.args[1].attr in PY_CMP:
+            cls = n.test.args[1].attr
+            ys = [s.value for s in n.body if isinstance(s, ast.Expr) and isinstance(s.value, ast.Yield)]
+            if len(ys) != 1 or len(n.body) != 1:
+                raise NotGenerated(f"branch for ast.{cls} is not a single yield")
+            tup = ys[0].value
+            if not (isinstance(tup, ast.Tuple) and len(tup.elts) == 2 and ast.unparse(tup.elts[0]) == "node" and isinstance(tup.elts[1], ast.Call)
+                    and ast.unparse(tup.elts[1].func) == "ast.Constant"):
+                raise NotGenerated(f"branch for ast.{cls}: unexpected yield shape")
+            val = {k.arg: k.value for k in tup.elts[1].keywords}.get("value")
+            ok = (isinstance(val, ast.Compare) and len(val.ops) == 1 and isinstance(val.ops[0], PY_CMP[cls]) and ast.unparse(val.left) == "left"
+                  and ast.unparse(val.comparators[0]) == "right")
+            found[cls] = True
+            g.oblige("table", f"folds-with-the-operator-it-denotes:{cls}", [], z3.BoolVal(bool(ok)), n.lineno)
+    if set(found) != set(PY_CMP):
+        raise NotGenerated(f"comparison folding branches found for {sorted(found)} only")
+    g.assumptions.add("left/right are the values literal_value computed for node.left / node.comparators[0] (read from the same function)")
